@@ -292,6 +292,9 @@ class RSAKey(object):
         """Perform signature on raw data, add PKCS#1 padding."""
         if not self.hasPrivateKey():
             raise AssertionError()
+        if numBytes(self.n) < len(bytes) + 11:
+            # RFC 8017 9.2 step 3: the padding string must have at least 8 bytes
+            raise ValueError("Message too long for the key size")
         paddedBytes = self._addPKCS1Padding(bytes, 1)
         return self._raw_private_key_op_bytes(paddedBytes)
 
@@ -336,6 +339,9 @@ class RSAKey(object):
         try:
             checkBytes = self._raw_public_key_op_bytes(sigBytes)
         except ValueError:
+            return False
+        if numBytes(self.n) < len(bytes) + 11:
+            # RFC 8017 9.2 step 3: no valid encoding exists (padding < 8 bytes)
             return False
         paddedBytes = self._addPKCS1Padding(bytes, 1)
         return checkBytes == paddedBytes
